@@ -507,7 +507,7 @@ class StepCounter:
 def budget_formula(total_elems, n_flows, live):
     """Step budget for ONE run_to_completion: depends only on the program size (number of
     primitive elements, number of flows) and on the number of live flow instances."""
-    return 32 + 2 * (total_elems + 4 * n_flows) * (live + 1)
+    return 32 + (total_elems + 4 * n_flows) * (live + 1)
 
 
 def _live(state, sm):
@@ -600,7 +600,7 @@ def run_case_pe(sm, tracer, counter, case):
         return res
     rt = rails.runtime
     rt.max_events = 60
-    sm._VERIF_MAX_STEPS = 20000
+    sm._VERIF_MAX_STEPS = 3000
 
     async def go():
         state = None
@@ -705,7 +705,7 @@ def worker_main(jobfile, outfile):
     import threading
 
     cases = json.load(open(jobfile))
-    limit = float(os.environ.get("C10_CASE_TIMEOUT", "15"))
+    limit = float(os.environ.get("C10_CASE_TIMEOUT", "30"))
     with open(outfile, "a") as out:
         for case in cases:
             out.write(json.dumps({"begin": case["id"]}) + "\n")
@@ -1532,7 +1532,7 @@ def run(tier, seed, replay=None):
         "traces_validated_against_impl": len(slide_terms),
         "correspondence_disagreements": len(slide_bad) + len(g_bad),
         "oracle_violations": sum(n for _w, _p, n in findings.values()),
-        "budget_formula": "32 + 2 * (total_primitive_elements + 4 * n_flows) * (live_instances + 1) internal events per run_to_completion",
+        "budget_formula": "32 + (total_primitive_elements + 4 * n_flows) * (live_instances + 1) internal events per run_to_completion",
         "jobs_s": t_jobs, "coq_slide_s": t_slide, "coq_guard_s": t_guard, "coq_bound_s": t_bound, "total_s": round(time.time() - t_start, 1),
     })
     out.assumptions += [
@@ -1574,13 +1574,13 @@ def check_bounds(out, bound_cases, defs, names):
     if not terms:
         return stats
     progs = sorted({k[1] for k in kept})
-    inb, err = run_cases_defs(PID + "_class", defs, progs, "in_class", shard=40)
+    inb, err = run_cases_defs(PID + "_class", defs, progs, "in_class", shard=15)
     if err:
         out.add_broken("correspondence:C10-bound(coqc)", err)
         return stats
     in_class = {p for p, ok in zip(progs, inb) if ok}
     stats["programs_in_model_class"] = sum(1 for k in kept if k[1] in in_class)
-    bools, err = run_cases_defs(PID + "_bound", defs, terms, "check_bound", shard=40)
+    bools, err = run_cases_defs(PID + "_bound", defs, terms, "check_bound", shard=15)
     if err:
         out.add_broken("correspondence:C10-bound(coqc)", err)
         return stats
